@@ -55,9 +55,11 @@ CHECKS = {
         rule="three stream sources: (gen) VP8 key frames written by /verif's boolean encoder: rapid-chosen header syntax (segment map/data abs/delta, per-segment quantiser/filter, simple/normal filter, level, sharpness, ref/mode deltas, 1-8 partitions, base q and 5 deltas, coefficient-probability updates, skip probability, profile 0-3) followed by random mode bits and random token partitions (optionally sparse); "
              "(gen+alph) the same plus a raw ALPH plane with filter 0-3; (gen+alphl) the same plus an ALPH payload compressed with a /verif-generated VP8L stream (all transforms, caches, code shapes; filter 0-3, pre-processing bit); (libwebp) pictures encoded by libwebp 1.2.4 at random quality (its ALPH methods/filters). "
              "Oracle: Y/U/V planes (or RGBA with alpha) bit-exact vs libwebp AND x/image (both must accept and agree, else the case is inconclusive); RGBA confirmed by a reference fancy upsampler. "
-             "Non-trivial: truth established by two agreeing witnesses; distinct = header-feature signature.",
+             "Non-trivial: truth established by two agreeing witnesses; distinct = header-feature signature. "
+             "Thorough adds a native coverage-guided campaign (FuzzC04) over raw key-frame bytes (<=16384 pixels; partitions starting with 0xff excluded as in the generator): whenever x/image and libwebp (given the bare bitstream, so that it cannot read a RIFF pad byte) accept and agree on all planes, the package must accept and agree.",
         assumptions=["libwebp 1.2.4 and golang.org/x/image/vp8 agreeing with each other define the format's samples", "streams all witnesses reject or disagree on are excluded and counted (inconclusive)"],
         tests=[dict(name="TestC04", quick=24000, thorough=640000)],
+        fuzz=[dict(name="FuzzC04", seconds=180)],
     ),
     "C06": dict(
         level="exploration",
@@ -76,7 +78,7 @@ CHECKS = {
         assumptions=["inputs declaring more than 2^22 pixels are run through the header-only entry points (counted as skipped_huge_declared)",
                      "allocation measured with runtime.MemStats.TotalAlloc in a single-goroutine test process"],
         tests=[dict(name="TestC05", quick=60000, thorough=800000, env=dict(VERIF_WANT_LASTCASE="1"))],
-        fuzz=[dict(name="FuzzC05", seconds=240)],
+        fuzz=[dict(name="FuzzC05", seconds=240, hang_is_violation=True)],
     ),
     "C17": dict(
         level="fault_enumeration",
@@ -124,9 +126,11 @@ CHECKS = {
         level="exploration",
         rule="well-formed files from four sources: Encode outputs (all codecs, alpha, metadata), AnimEncoder outputs (lossless/lossy/mixed), and hand-assembled containers written by /verif's riffgen: VP8X stills with/without ALPH incl. a zero-length ALPH, ICCP/EXIF/XMP before or after the image, unknown chunks, feature flags over- or under-stating the optional chunks (canvas == image size), and VP8X animations (ANIM + 1-5 ANMF frames inside the canvas, ALPH/VP8/VP8L sub-chunks, unknown chunks between/inside frames). "
              "Oracle: GetFeatures, DecodeConfig, mux.Demuxer and animation.DecodeBytes all accept and agree on canvas size, animation flag, frame count and (animated) loop count; for stills Decode accepts: header width/height == decoded bounds, DecodeConfig.ColorModel == decoded image's ColorModel(), format name matches the first chunk, package-written files set the alpha flag whenever a decoded pixel is not opaque, image.Decode/image.DecodeConfig report \"webp\" and the same results. "
-             "Non-trivial: every file; distinct = (source, format, animated, chunk layout with empty/odd markers).",
+             "Non-trivial: every file; distinct = (source, format, animated, chunk layout with empty/odd markers). "
+             "Thorough adds a native coverage-guided campaign (FuzzC16): bytes that the strict container validator accepts as a well-formed file go through the same cross-view comparison.",
         assumptions=["the harness binary links no other decoder registering the webp format (x/image/webp is vendored without its init)"],
         tests=[dict(name="TestC16", quick=20000, thorough=400000)],
+        fuzz=[dict(name="FuzzC16", seconds=120)],
     ),
     "C12": dict(
         level="exploration",
@@ -177,8 +181,10 @@ CHECKS = {
         level="exploration",
         rule="two stream sources. (gen) VP8L bitstreams written by /verif's own generator from the lossless specification: any subset and order of the four transforms (each at most once) with tile bits 2-9, palette sizes {1,2,3,4,5,16,17,100,255,256} (all packings), predictor modes 0-13 per tile (rarely 14/15), random cross-colour multipliers; colour cache bits 0-11; optional meta prefix image with prefix bits 2-9 and 1-1100 groups incl. an unreferenced group; prefix codes in simple (1-2 symbols, 1- and 8-bit form, either transmission order) and normal form (complete length-limited codes <=15 from balanced, random and deep trees - deep: padded with never-occurring symbols so that 13-15-bit codewords are used by the occurring symbols -, single-symbol codes, code-length code with 16/17/18 repeat tokens and the max_symbol form); pixel stream of literals, colour-cache hits and backward references with every plane distance code 1-120 and linear distances, lengths up to 4096 incl. overlapping copies (a long-copy class draws lengths uniformly up to 4096); sub-images with their own caches and references. (libwebp) pictures encoded by libwebp 1.2.4's lossless encoder. "
              "Oracle: webp.Decode must accept and return exactly the ARGB that libwebp AND x/image/vp8l return (both must accept and agree; otherwise the case is inconclusive); for libwebp-encoded pictures also the source pixels. "
-             "Non-trivial: stream has a transform, backward reference, cache hit or more than one group; distinct = (transform order with tile bits/palette class, cache bits, meta bits/groups, code style, feature set).",
+             "Non-trivial: stream has a transform, backward reference, cache hit or more than one group; distinct = (transform order with tile bits/palette class, cache bits, meta bits/groups, code style, feature set). "
+             "Thorough adds a native coverage-guided campaign (FuzzC03) over raw VP8L bytes (<=16384 pixels, seeded with 48 generated streams): whenever x/image (consulted first: memory-safe) and then libwebp accept the bytes and agree, the package must accept and agree; a saved input only counts if it fails again when run alone.",
         assumptions=["libwebp 1.2.4 and golang.org/x/image/vp8l agreeing with each other define the decoded pixels", "streams are 'free mode': what they decode to is defined by the references, not known by construction"],
         tests=[dict(name="TestC03", quick=24000, thorough=200000)],
+        fuzz=[dict(name="FuzzC03", seconds=180)],
     ),
 }
